@@ -488,9 +488,49 @@ def run_unit(unit_dir, tier, seed, scratch):
         try:
             import witness
             u.confirmed = witness.sweep(u, unit_dir, scratch)
+            u.swept = witness.built(u, unit_dir, scratch)
         except Exception as e:
             u.confirmed = []
     return u
+
+
+def _fn_quals(path):
+    out = set()
+    try:
+        lines = gen.expand_includes(open(path, encoding='utf-8').read().split('\n'))
+    except Exception:
+        return out
+    for l in lines:
+        t = l.strip()
+        if t.startswith('//@@ fn '):
+            w = t.split()
+            out.add((w[2], w[3]))
+    return out
+
+
+def witness_covers(unit_name):
+    """True when the unit's replay program extracts every function the unit puts under contract."""
+    d = os.path.join(VERIF, 'units', unit_name)
+    w = os.path.join(d, 'witness.rs')
+    if not os.path.exists(w):
+        return False
+    need = _fn_quals(os.path.join(d, 'unit.rs'))
+    have = _fn_quals(w)
+    return bool(need) and need <= have
+
+
+DEGRADABLE = ('extraction:', 'front end:', 'undeclared ')
+
+
+def degradable(u):
+    r = u.reason or ''
+    if not any(k in r for k in DEGRADABLE) or 'resource limit' in r or 'timed out' in r or 'timeout' in r:
+        return False
+    if getattr(u, 'confirmed', None):
+        return False
+    if not getattr(u, 'swept', False):
+        return False
+    return witness_covers(u.name)
 
 
 def first_error(r):
@@ -595,6 +635,7 @@ def report(prop, tier, seed, results, extras, wall, rebaseline, replay):
     violations = []
     known_hits = []
     undecided = []
+    degraded = []
     obligations = 0
     discharged = 0
     fn_rows = []
@@ -667,7 +708,11 @@ def report(prop, tier, seed, results, extras, wall, rebaseline, replay):
                         f.witness_cached = wit
                         violations.append((u, f, nm))
                     else:
-                        undecided.append('%s: %s fails against the empty contract of new callee(s) %s; no failing input found by replaying the real code' % (u.name, nm, ', '.join(new_callees)))
+                        msg = '%s: %s fails against the empty contract of new callee(s) %s; no failing input found by replaying the real code' % (u.name, nm, ', '.join(new_callees))
+                        if witness_covers(u.name):
+                            degraded.append(msg)
+                        else:
+                            undecided.append(msg)
                 else:
                     violations.append((u, f, nm))
         for c in getattr(u, 'confirmed', []):
@@ -693,7 +738,13 @@ def report(prop, tier, seed, results, extras, wall, rebaseline, replay):
             elif b['result'] == 'error':
                 undecided.append('%s: bounded stand-in %s could not run: %s' % (u.name, b['label'], b.get('why', '')))
         if u.status == 'undecided':
-            undecided.append('%s: %s' % (u.name, u.reason))
+            if degradable(u):
+                # the proof could not be ATTEMPTED on this text (lost anchor, renamed local, construct outside Verus), the unit's
+                # replay program covers every function of the unit and, swept over all clauses, found no failing input on the
+                # real code: the property held on everything explored.  Reported as bounded for this run, never as proved.
+                degraded.append('%s: proof not attempted (%s); replay of the extracted real code over its enumerated domain found no failing input' % (u.name, u.reason[:160]))
+            else:
+                undecided.append('%s: %s' % (u.name, u.reason))
         # obligations: verifier-counted verification units (functions / proofs) of the main file and variants
         obligations += u.verified + u.errors
         discharged += u.verified
@@ -758,6 +809,8 @@ def report(prop, tier, seed, results, extras, wall, rebaseline, replay):
         tail = '' if payload.get('witness') else ' no-failing-input-found'
         print('VIOLATION property=%s replay=%s obligation=%s%s' % (prop, rp, nm, tail))
         rc = 1
+    for s in degraded:
+        print('DEGRADED property=%s %s (bounded for this run, not proved)' % (prop, s))
     for s in undecided:
         print('UNDECIDED property=%s %s' % (prop, s))
     if rc == 0 and undecided:
@@ -791,6 +844,7 @@ def report(prop, tier, seed, results, extras, wall, rebaseline, replay):
             mutants=mutants, seeds=seeds,
             known_finding_obligations=sorted(set(kf_obls)),
             bounded_standins=bounded_rows,
+            degraded_to_bounded=degraded,
             undecided=undecided,
             extras=[{k: v for k, v in e.items() if k in ('engine', 'obligations', 'discharged', 'harnesses', 'note', 'wall_s')} for e in extras],
             not_decided=not_decided_text(prop),
